@@ -113,6 +113,38 @@ fn body(seed: u64, turns: usize, policy: u64, order: u64) {
     say(&format!("STAGE transposition_hash {:x}", h));
     let next = g.valid_actions().first().map(|a| g.take_action(a));
     say("STAGE take_action");
+    // every public query on the states in the middle of the next turn (steps 1, 2, 3), including the
+    // boards of the earlier steps of that turn
+    if let Some(n1) = next.as_ref() {
+        let mut cur = n1.clone();
+        for _ in 0..3 {
+            if !cur.is_play_phase() || cur.current_step() == 0 {
+                break;
+            }
+            let k = cur.current_step();
+            let mut acc = 0u64;
+            for i in 0..=k {
+                acc ^= cur.piece_board_for_step(i).all_pieces;
+            }
+            let pp = cur.unwrap_play_phase();
+            acc ^= pp.previous_piece_boards().len() as u64 ^ pp.hash_history().len() as u64 ^ pp.hash_history().iter().count() as u64;
+            let _ = pp.push_pull_state();
+            let va = cur.valid_actions();
+            acc ^= va.len() as u64 ^ cur.valid_actions_no_rep().len() as u64;
+            acc ^= cur.is_terminal().is_some() as u64 ^ cur.has_move(cur.piece_board()).is_some() as u64;
+            acc ^= cur.can_pass(true) as u64 ^ cur.can_pass(false) as u64 ^ cur.transposition_hash();
+            for a in va.iter() {
+                acc ^= cur.trapped_animal_for_action(a).is_some() as u64;
+            }
+            acc ^= cur.to_string().len() as u64;
+            say(&format!("STAGE mid_turn_queries step={} {:x}", k, acc));
+            let step = va.iter().find(|a| matches!(a, Action::Move(..)) && cur.trapped_animal_for_action(a).is_none());
+            match step {
+                Some(a) => cur = cur.take_action(a),
+                None => break,
+            }
+        }
+    }
     let eq = clone == g;
     say(&format!("STAGE eq {}", eq));
     if order % 2 == 0 {
